@@ -30,7 +30,7 @@
 
 #define MAXP 32
 #define MAXO 16
-#define MAXC 2600
+#define MAXC 3000
 #define NVAR 16
 #define DISPATCH_CAP 3000
 
